@@ -295,3 +295,20 @@ PROPS["C12"] = dict(
     technique="exhaustive enumeration of a build-configuration lattice x parameter alphabets on the real code (digest tables compared across builds and with a reference model)",
     assumptions=["reference model in harness/vx.c", "configure.ac's thread-safe/OpenMP fragment is evaluated with sh (engine/build.py)"],
 )
+
+def _c18_runs(tier):
+    rs = []
+    for mode in ("roundtrip", "str", "jcf", "png"):
+        rs.append(Run(C(), "harness/p_c18.c", ["--mode=" + mode, "--setbits=24"], group=mode))
+    if tier == "thorough":
+        rs.append(Run(C(sse2=0, **MIN), "harness/p_c18.c", ["--mode=roundtrip", "--setbits=24"], group="roundtrip"))
+    return rs
+
+PROPS["C18"] = dict(
+    level="exploration", runs=_c18_runs,
+    rule="PNG round trip for rows {1,2,9} x every ncols in 1..130 and {191..193,255..257,511..513} x {zero, ones, PR, all label planes (+complements), every single-entry matrix for ncols <= 70} and every compression level -1..9 x comment {NULL, empty, text} on dense data for every width residue mod 8 around word boundaries; mzd_from_str on ALL strings of matrices with <= 12 (14) entries and all unit strings up to 130 columns; JCF: generated valid files (equality with the denoted matrix) and every single-token replacement {index 0, positive first entry, ncols+1, -(ncols+1), 2e9, extra row, modulus 3, missing header, empty file, non-numeric token, truncation, negative dimension} at every token position of 6 base files; PNG files assembled by the harness (own chunk/CRC writer + zlib, independent of mzd_to_png) for every legal bit depth {1,2,4,8,16} x colour type {0,2,3,4,6} x interlace x 5 sizes, each pristine, truncated at EVERY byte length and with EVERY single byte xor 0x01 / 0xFF, each read in a forked ASan child; non-trivial = non-zero matrix / existing byte position; distinct = distinct (case parameters)",
+    level_text="Bounded-exhaustive round-trip enumeration plus exhaustive single-fault enumeration (every truncation point, every single-byte corruption, every single-token replacement) of small files, with the fate of each reader run classified in a child process: NULL / controlled termination / matrix, never a sanitizer report or fault, and never a matrix for an unsupported IHDR.",
+    level_note="Bounded: files < 700 bytes, single faults only. libpng itself is not instrumented; overflows are seen when they pass through intercepted libc calls or corrupt ASan-guarded heap metadata.",
+    technique="bounded-exhaustive round-trip enumeration + exhaustive single-fault enumeration (truncations, byte flips, token replacements) on the real readers in forked ASan children",
+    assumptions=["libpng16 and zlib of the image", "temporary files live in the per-run scratch directory"],
+)
